@@ -556,7 +556,9 @@ def check_reconnect(ctx, kind):
     log = TraceLog()
 
     def handler(conn, k):
-        # echo until the host closes
+        # echo until the host closes; on the FIRST connection the peer also sends a tail the host never asks for:
+        # bytes of an old connection must not show up on the next one
+        tail_sent = False
         while True:
             try:
                 d = conn.recv(65536)
@@ -564,6 +566,9 @@ def check_reconnect(ctx, kind):
                 break
             if not d:
                 break
+            if k == 0 and not tail_sent:
+                d = d + b"STALE-TAIL-OF-THE-FIRST-CONNECTION"
+                tail_sent = True
             log.add("pw:" + d.hex())
             conn.sendall(d)
             log.add("pd")
@@ -584,13 +589,14 @@ def check_reconnect(ctx, kind):
         got = bytearray()
         end = time.monotonic() + 5.0
         while len(got) < len(msg) and time.monotonic() < end:
-            log.add("rs:4096")
+            want = min(4096, len(msg) - len(got))       # never ask for more than the echo: the tail stays unread
+            log.add("rs:%d" % want)
             try:
-                data = await io.read(4096, 0.2)
+                data = await io.read(want, 0.2)
             except Timeout:
-                log.add("rt:4096")
+                log.add("rt:%d" % want)
                 continue
-            log.add("rd:4096:%s" % hx(data))
+            log.add("rd:%d:%s" % (want, hx(data)))
             if not data:
                 break
             got += data
